@@ -134,13 +134,29 @@ Definition attach_attr (lft : gexpr) (attr : string) : gexpr :=
   | _ => GAttribute [lft; GName attr ParNone]
   end.
 
+(* _build: only a tuple, or a constant (a string annotation that may stand for one), keeps the in_subscript flag *)
+Definition keeps_insub (e : pyexpr) : bool :=
+  match e with PTuple _ | PNum _ _ | PConst _ | PStr _ _ _ | PParsed _ => true | _ => false end.
+Definition enter (c : bctx) (e : pyexpr) : bctx :=
+  if keeps_insub e then c else mkCtx (pm c) false (injoin c) (infmt c).
+
+(* repr(value).replace("inf", "1e309") for float / complex constants (sys.float_info.max_10_exp + 1 = 309: IEEE double) *)
+Fixpoint replace_inf (s : string) : string :=
+  match s with
+  | String "i" (String "n" (String "f" r)) => "1e309" ++ replace_inf r
+  | String ch r => String ch (replace_inf r)
+  | EmptyString => EmptyString
+  end.
+Definition num_text (isint : bool) (r : string) : string := if isint then r else replace_inf r.
+
 Definition optb {A B} (f : A -> option B) (o : option A) : option (option B) :=
   match o with None => Some None | Some a => match f a with Some b => Some (Some b) | None => None end end.
 
-Fixpoint build (c : bctx) (e : pyexpr) {struct e} : option gexpr :=
+Fixpoint build (c0 : bctx) (e : pyexpr) {struct e} : option gexpr :=
+  let c := enter c0 e in
   match e with
   | PName id => if mapped NName then Some (GName id ParScope) else None
-  | PNum _ r => if mapped NConstant then Some (GStr r) else None
+  | PNum isint r => if mapped NConstant then Some (GStr (num_text isint r)) else None
   | PConst r => if mapped NConstant then Some (GStr r) else None
   | PStr r raw parsed =>
       if mapped NConstant then
@@ -384,9 +400,9 @@ Fixpoint iterate (flat : bool) (g : gexpr) {struct g} : list item :=
       ++ (if is_nil conds then [] else IStr " if " :: ijoin [IStr " if "] (map y conds))
   | GDict items =>
       [IStr "{"] ++ ijoin [IStr ", "]
-        (map (fun kv => (match fst kv with None => [IStr "None"] | Some k => y k end) ++ [IStr ": "] ++ y (snd kv)) items)
+        (map (fun kv => (match fst kv with None => [IStr "**"] | Some k => y k ++ [IStr ": "] end) ++ y (snd kv)) items)
       ++ [IStr "}"]
-  | GDictComp k v gens => [IStr "{"] ++ y k ++ [IStr ": "] ++ y v ++ ijoin [IStr " "] (map y gens) ++ [IStr "}"]
+  | GDictComp k v gens => [IStr "{"] ++ y k ++ [IStr ": "] ++ y v ++ [IStr " "] ++ ijoin [IStr " "] (map y gens) ++ [IStr "}"]
   | GFormatted v => [IStr "{"] ++ y v ++ [IStr "}"]
   | GGeneratorExp e gens => y e ++ [IStr " "] ++ ijoin [IStr " "] (map y gens)
   | GIfExp b t o => y b ++ [IStr " if "] ++ y t ++ [IStr " else "] ++ y o
